@@ -27,6 +27,13 @@ HOSTS = ["example.com", "EXAMPLE.com", "127.0.0.1", "[::1]", "[2001:db8::1]", ""
 PORTS = [None, "1", "79", "80", "81", "443", "8080", "65535", "65536", "x", "0", ""]
 PATHS = ["", "/", "/p/q", "/users/@me"]
 QUERIES = [None, "a=1", "mail=bob@mail.test:99"]
+# host forms beyond the grid's six: every way of writing a name, an IPv4 and an IPv6 literal that the URL grammar allows
+HOST_NAMES = ["h", "localhost", "a-b.example", "sub.domain.example.co.uk", "example.com.", "1host.example", "123.example", "my_host.example", "xn--nxasmq6b.example",
+              "x" * 63 + ".example", "UPPER.Example.COM", "a.b.c.d.e.f.g.h", "host-", "0", "1.2.3", "256.256.256.256", "1.2.3.4.5"]
+HOST_V4 = ["10.0.0.1", "192.0.2.1", "255.255.255.255", "0.0.0.0", "1.1.1.1"]
+HOST_V6 = ["::", "::1", "1::", "1::1", "2001:db8::1", "2001:db8:0:0:0:0:0:1", "2001:0db8:0000:0000:0000:0000:0000:0001", "2001:DB8::A", "ABCD:EF01:2345:6789:ABCD:EF01:2345:6789",
+           "::ffff:192.0.2.1", "64:ff9b::198.51.100.7", "::127.0.0.1", "::ffff:0:192.0.2.1", "0:0:0:0:0:ffff:192.0.2.1", "2001:db8::192.0.2.1", "1:2:3:4:5:6:7::", "::2:3:4:5:6:7:8",
+           "1:2:3:4::6:7:8", "fe80::1", "ff02::1:ff00:1", "2a03:4000:123:83::3"]
 OUTCOMES = ["accept", errno.ECONNREFUSED, errno.ENETUNREACH, errno.ETIMEDOUT]
 OTHERS = [errno.ETIMEDOUT, errno.EHOSTUNREACH, errno.EPERM]
 
@@ -63,6 +70,7 @@ def tasks(tier, seed):
     for k in (1, 2, 3, 4):
         ts.append({"part": "addrs", "k": k, "name": "addrs/%d" % k})
     ts.append({"part": "history", "name": "history"})
+    ts.append({"part": "hostforms", "name": "hostforms"})
     ts.append({"part": "scoped", "name": "scoped"})
     ts.append({"part": "redirect-scheme", "name": "redirect-scheme"})
     return ts
@@ -444,6 +452,14 @@ def run_task(desc):
             n += 1
             rec(guarded(url_case, u), {"case": "url", "url": u})
         res["samples"].append({"urls": U[:3] + U[-2:]})
+    elif desc["part"] == "hostforms":
+        hosts = HOST_NAMES + HOST_V4 + ["[%s]" % h for h in HOST_V6]
+        for h in hosts:
+            for sc, ui, po, pa, q in itertools.product(("ws", "wss"), ("", "u:p@"), ("", ":8080"), ("", "/p/q"), ("", "?a=1")):
+                u = "%s://%s%s%s%s%s" % (sc, ui, h, po, pa, q)
+                n += 1
+                rec(guarded(url_case, u), {"case": "url", "url": u})
+        res["samples"].append({"host_forms": hosts[:4] + hosts[-4:], "count": len(hosts)})
     elif desc["part"] == "ports":
         for p in range(desc["lo"], desc["hi"], desc["step"]):
             for u in ("ws://example.com:%d/x?y=1" % p, "wss://[::1]:%d" % p):
